@@ -370,6 +370,13 @@ def check_property(pid, tier, scratch, write_baseline=False):
     # functions that are anchored in the property but outside Verus's reach: a bounded check of each stands in on
     # every run (labelled bounded, never counted as proved)
     always = {u: set(fns) for u, fns in P.get("bounded_always", {}).items()}
+    deep = (tier == "thorough")
+    if deep:
+        # thorough tier: every harness of the property's units runs completely (all functions), with the larger bounds
+        from vx import bounded as _b
+        for u in units:
+            if _b.available(u):
+                always.setdefault(u, set()).add("*")
     for u, fns in always.items():
         need.setdefault(u, set()).update(fns)
     if not write_baseline:
@@ -377,8 +384,9 @@ def check_property(pid, tier, scratch, write_baseline=False):
             if not bounded.available(u):
                 bounded_runs.append(dict(unit=u, functions=sorted(fns), ran=False, note="no bounded harness for this unit"))
                 continue
-            br = bounded.run(u, sorted(fns), REPO, scratch)
-            bounded_runs.append(dict(unit=u, functions=sorted(fns), ran=br["ran"], failures=br["failures"][:10], note=br.get("note", ""), cmd=br.get("cmd"), wall_s=br.get("wall_s"),
+            fl_list = [] if "*" in fns else sorted(fns)
+            br = bounded.run(u, fl_list, REPO, scratch, deep=deep)
+            bounded_runs.append(dict(unit=u, functions=sorted(fns), deep=deep, ran=br["ran"], failures=br["failures"][:10], note=br.get("note", ""), cmd=br.get("cmd"), wall_s=br.get("wall_s"),
                                      bound="see the header of contracts/bounded/%s.rs" % u))
             if br["ran"]:
                 for fl in br["failures"]:
@@ -387,7 +395,11 @@ def check_property(pid, tier, scratch, write_baseline=False):
                 for q in fns:
                     bfail.setdefault((u, q), None)
     for u, fns in sorted(always.items()):
-        for q in sorted(fns):
+        qs = set(fns)
+        if "*" in qs:
+            qs.discard("*")
+            qs |= {fn for (uu, fn) in bfail if uu == u}
+        for q in sorted(qs):
             fl = bfail.get((u, q))
             if fl:
                 ob = fl[0]["clause"] if owns(fl[0]["clause"]) else "%s:%s" % (pid, q)
